@@ -39,6 +39,10 @@ FAMILIES = [
     [R('(ab|c)+'), C(',')],
     [R('(ab?)+'), C(',')],
     [R('(_|[a-z])+'), C(',')],
+    # char terms that are not printable (a blank, a control character, a byte with the high bit): the lexer matches the BYTE
+    [C('\n'), C('\t'), R('[a-z]+')],
+    [C('\xa7'), C('\\'), C('a')],
+    [C(' '), C('\x01'), S('\\x')],
 ]
 
 
